@@ -80,7 +80,15 @@ def serial(check: Check, repo: Repo) -> None:
                  "none" if not prims else f"calls {prims}: sibling mutation fields could overlap")
     cb = nested(red, "async_callback")
     calls = [c for c in walk_body(cb) if isinstance(c, ast.Call) and isinstance(c.func, ast.Name) and c.func.id == "callback"]
-    ok = len(calls) == 1 and calls[0].args and isinstance(calls[0].args[0], ast.Await) and unparse(calls[0].args[0].value) == "current_accumulator"
+    ok = False
+    if len(calls) == 1 and calls[0].args:
+        a0 = calls[0].args[0]
+        if isinstance(a0, ast.Await) and unparse(a0.value) == "current_accumulator":
+            ok = True
+        elif isinstance(a0, ast.Name):
+            defs = Origins(cb).reaching(a0.id, calls[0])
+            ok = bool(defs) and all(d.kind == "assign" and isinstance(d.value, ast.Await)
+                                    and unparse(d.value.value) == "current_accumulator" for d in defs)
     check.ob(rule, calls[0] if calls else cb, "async_callback: callback(await current_accumulator, value)", ok, unparse(calls[0])[:80] if calls else "")
     # in the loop the async wrapper is used exactly when the accumulator is awaitable
     loop = next((n for n in walk_body(red) if isinstance(n, ast.For)), None)
@@ -88,7 +96,12 @@ def serial(check: Check, repo: Repo) -> None:
     check.ob(rule, loop or red, "async_reduce chains through the awaitable accumulator", ok, "")
     sr = nested(ser, "set_result")
     st = [unparse(s) for s in sr.body if not (isinstance(s, ast.Expr) and isinstance(s.value, ast.Constant))]
-    ok = st == ["results[response_name] = await result", "return results"]
+    cfg = CFG(sr)
+    aw = lambda m: m.ast is not None and m.kind in ("stmt", "return") and any(  # noqa: E731
+        isinstance(x, ast.Await) and unparse(x.value) == "result" for x in ast.walk(m.ast))
+    bad = cfg.find_path(cfg.entry, lambda m: m is cfg.exit, follow=no_exc, avoid=aw)
+    stores = [w for w in write_sites(sr) if w.chain == "results" and w.kind == "item-store"]
+    ok = bad is None and len(stores) == 1 and "response_name" in unparse(stores[0].node)
     check.ob(rule, sr, "set_result awaits the field before returning the accumulator", ok, str(st))
     rets = [n for n in ser.body if isinstance(n, ast.Return)]
     ok = len(rets) == 1 and unparse(rets[0].value) == "async_reduce(reducer, grouped_field_set.items(), {})"
@@ -509,3 +522,347 @@ def hook_once(check: Check, repo: Repo) -> None:
                                  f"the hook (and the cleanup next to it) runs only in the `finally` of the async generator "
                                  f"{t.name}; closing the returned generator before its first step runs no `finally`")
     check.floor(rule, 8, "exit classes of the operation entry points")
+
+
+# -- C06: task hygiene family ------------------------------------------------------------------
+
+TRACKERS = {"track_incremental_future", "settle_in_background", "push", "add_done_callback", "put", "put_nowait"}
+
+
+def _has_await(node_ast: ast.AST | None) -> bool:
+    if node_ast is None:
+        return False
+    if isinstance(node_ast, (ast.AsyncFor, ast.AsyncWith)):
+        return True
+    if isinstance(node_ast, (ast.For, ast.With, ast.While, ast.Try, ast.If, ast.FunctionDef, ast.AsyncFunctionDef, ast.ClassDef, ast.Match)):
+        roots = [node_ast.iter] if isinstance(node_ast, ast.For) else (
+            [i.context_expr for i in node_ast.items] if isinstance(node_ast, ast.With) else [])
+    else:
+        roots = [node_ast]
+    stack = list(roots)
+    while stack:
+        n = stack.pop()
+        if isinstance(n, (ast.FunctionDef, ast.AsyncFunctionDef, ast.Lambda, ast.ClassDef)):
+            continue
+        if isinstance(n, (ast.Await, ast.Yield, ast.YieldFrom)):
+            return True
+        stack.extend(ast.iter_child_nodes(n))
+    return False
+
+
+def track_before_await(check: Check, repo: Repo, mods: list[Module]) -> None:
+    rule = "TRACK-BEFORE-AWAIT"
+    check.rule(
+        rule,
+        "a future handed to (or created in) an async function is registered in its tracking set before "
+        "the function can suspend: no await lies on a path from the function entry to the statement "
+        "that adds the future to a `self.<attr>` collection; otherwise an abort arriving while the "
+        "function is parked never sees (cancels, settles) that future",
+    )
+    n = 0
+    for mod in mods:
+        for fn in mod.functions():
+            if not isinstance(fn, ast.AsyncFunctionDef):
+                continue
+            regs = []
+            aliases = {}
+            for a in walk_body(fn):
+                if isinstance(a, ast.Assign) and len(a.targets) == 1 and isinstance(a.targets[0], ast.Name) \
+                        and isinstance(a.value, ast.Attribute) and unparse(a.value.value) == "self":
+                    aliases[a.targets[0].id] = a.value.attr
+            for c in walk_body(fn):
+                if isinstance(c, ast.Call) and isinstance(c.func, ast.Attribute) and c.func.attr in ("add", "append") and len(c.args) == 1 \
+                        and isinstance(c.args[0], ast.Name):
+                    recv = c.func.value
+                    attr = None
+                    if isinstance(recv, ast.Attribute) and unparse(recv.value) == "self":
+                        attr = recv.attr
+                    elif isinstance(recv, ast.Name) and recv.id in aliases:
+                        attr = aliases[recv.id]
+                    if attr and ("future" in attr or "task" in attr or "pending" in attr):
+                        regs.append((c, attr))
+            if not regs:
+                continue
+            cfg = CFG(fn)
+            for c, attr in regs:
+                n += 1
+                rnodes = cfg.node_for_expr(c)
+                bad = cfg.find_path(cfg.entry, lambda m: m in rnodes, follow=no_exc,
+                                    avoid=None)
+                # is there a path entry -> (await node) -> registration ?
+                awaits = [m for m in cfg.nodes if _has_await(m.ast) and m.kind not in ("def", "join", "finally", "handler")]
+                hit = None
+                for a in awaits:
+                    if a in cfg.reachable([cfg.entry], follow=no_exc) and any(r in cfg.reachable([a], follow=no_exc) for r in rnodes) and a not in rnodes:
+                        hit = a
+                        break
+                check.ob(rule, c, f"{fn.name}: {unparse(c)}", hit is None,
+                         f"registered in self.{attr} before any suspension point" if hit is None else
+                         f"the function may suspend at line {getattr(hit.ast, 'lineno', '?')} before `{unparse(c.args[0])}` is registered in self.{attr}")
+    check.note(track_before_await_sites=n)
+
+
+CANCEL_EXEMPT = {
+    ("Computation.abort", "future"):
+        "the pending future is registered by IncrementalExecutor.prime_now via track_incremental_future and is "
+        "settled by cancel_incremental_work; abort() hands back the on_abort awaitable",
+    ("IncrementalPublisher._subscribe", "next_batch"):
+        "the raise enters the finally of _subscribe whose awaits (work_queue.cancel(), cancel_incremental_work()) run "
+        "before the consumer is released; the events generator has no cleanup of its own",
+}
+
+
+def cancel_settle(check: Check, repo: Repo, mods: list[Module]) -> None:
+    rule = "CANCEL-SETTLE"
+    check.rule(
+        rule,
+        "cancelling is not settling: after `.cancel()` on tasks/futures of a collection (or a single task) "
+        "in a cleanup routine the same objects are awaited - directly or through gather(..., "
+        "return_exceptions=True) / wait - on every path to the normal exit or to the re-raise, or they are "
+        "handed to a tracker; pure waiter futures created from `<signal>.wait()` and results discarded "
+        "with `ensure_future(x).cancel()` are exempt (nothing of the execution runs in them)",
+    )
+    n = 0
+    for mod in mods:
+        for fn in mod.functions():
+            if isinstance(parent(fn), (*FuncDef,)) and False:
+                continue
+            cancels = [c for c in walk_body(fn) if isinstance(c, ast.Call) and isinstance(c.func, ast.Attribute) and c.func.attr == "cancel" and not c.args]
+            if not cancels:
+                continue
+            cfg = None
+            for c in cancels:
+                recv = c.func.value
+                if isinstance(recv, ast.Call):
+                    check.ob(rule, c, f"{fn.name}: {node_text(c, 60)}", True, "discarded result: ensure_future(x).cancel()", nontrivial=False)
+                    n += 1
+                    continue
+                if not isinstance(recv, ast.Name):
+                    continue
+                name = recv.id
+                # what is being cancelled: loop variable over a collection, or a single task variable
+                loop = next((a for a in ancestors(c) if isinstance(a, ast.For) and isinstance(a.target, ast.Name) and a.target.id == name), None)
+                subject = unparse(loop.iter) if loop is not None else name
+                # exemption: waiter futures `x = ensure_future(<something>.wait())`
+                waiter = False
+                for a in walk_body(fn):
+                    if isinstance(a, ast.Assign) and len(a.targets) == 1 and isinstance(a.targets[0], ast.Name) and a.targets[0].id == name \
+                            and isinstance(a.value, ast.Call) and last_attr(a.value) == "ensure_future" and a.value.args \
+                            and isinstance(a.value.args[0], ast.Call) and last_attr(a.value.args[0]) == "wait" \
+                            and "signal" in unparse(a.value.args[0].func):
+                        waiter = True
+                if waiter:
+                    check.ob(rule, c, f"{fn.name}: {node_text(c, 60)}", True, "pure waiter on the abort signal", nontrivial=False)
+                    n += 1
+                    continue
+                ex = CANCEL_EXEMPT.get((qualname_of(c), name))
+                if ex:
+                    check.ob(rule, c, f"{fn.name}: {node_text(c, 60)}", True, f"exempt (one named construct): {ex}", nontrivial=False)
+                    n += 1
+                    continue
+                # containers the subject flows into: L.extend(subject) / L.append(name)
+                carriers = {subject, name}
+                for x in walk_body(fn):
+                    if isinstance(x, ast.Call) and isinstance(x.func, ast.Attribute) and x.func.attr in ("extend", "append") and x.args \
+                            and unparse(x.args[0]) in carriers and isinstance(x.func.value, ast.Name):
+                        carriers.add(x.func.value.id)
+                if not isinstance(fn, ast.AsyncFunctionDef):
+                    # a synchronous function cannot await: it must return/hand over an awaitable that settles
+                    txt = " ".join(unparse(s) for s in walk_body(fn) if isinstance(s, (ast.Return,)))
+                    settle_fns = ("_settle_parked", "_cleanup", "_settle_pending", "settle_in_background", "gather")
+                    ok = any(sf in txt for sf in settle_fns) or any(
+                        isinstance(x, ast.Call) and last_attr(x) in ("settle_in_background", "track_incremental_future") for x in walk_body(fn))
+                    check.ob(rule, c, f"{fn.name}: {node_text(c, 60)}", ok,
+                             "synchronous function returns the settling awaitable" if ok else
+                             f"`{subject}` is cancelled in a synchronous function that hands no settling awaitable back")
+                    n += 1
+                    continue
+                cfg = cfg or CFG(fn)
+                cn = cfg.node_for_expr(c)
+
+                def settles(m) -> bool:
+                    a = m.ast
+                    if a is None or m.kind in ("join", "finally", "handler", "def"):
+                        return False
+                    for x in ast.walk(a if not isinstance(a, (ast.For, ast.AsyncFor)) else a.iter):
+                        if isinstance(x, ast.Await):
+                            t = unparse(x.value)
+                            root = subject.split(" ")[0].lstrip("(").split("(")[-1]
+                            if name in {y.id for y in ast.walk(x.value) if isinstance(y, ast.Name)}:
+                                return True
+                            if any(isinstance(y, ast.Name) and y.id == subject for y in ast.walk(x.value)):
+                                return True
+                            if subject in t or any(cr in {y.id for y in ast.walk(x.value) if isinstance(y, ast.Name)} for cr in carriers):
+                                return True
+                            if isinstance(x.value, ast.Call) and last_attr(x.value) in ("_settle_pending", "_settle_parked", "_cleanup"):
+                                return True
+                        if isinstance(x, ast.Call) and last_attr(x) in ("settle_in_background", "track_incremental_future") :
+                            return True
+                    return False
+
+                def follow(a_, b_, label, _carriers=carriers):
+                    if not no_exc(a_, b_, label):
+                        return False
+                    # `if <carrier>:` false edge = nothing to settle
+                    if label and label[0] == "cond" and label[2] is False and isinstance(label[1], ast.Name) and label[1].id in _carriers:
+                        return False
+                    return True
+
+                bad = None
+                for s in cn:
+                    p = cfg.find_path(s, lambda m: m is cfg.exit or m.kind == "raise", follow=follow, avoid=settles)
+                    if p is not None:
+                        bad = p
+                check.ob(rule, c, f"{fn.name}: {node_text(c, 60)}", bad is None,
+                         f"`{subject}` is awaited/settled on every path after the cancel" if bad is None else
+                         f"`{subject}` is cancelled but a path continues to {bad[-1].kind}@{getattr(bad[-1].ast, 'lineno', 'end')} without awaiting it: "
+                         f"the caller is released while the cancelled work is still unwinding")
+                n += 1
+    check.floor(rule, 8, ".cancel() sites")
+
+
+def cleanup_gather(check: Check, repo: Repo, mods: list[Module]) -> None:
+    rule = "CLEANUP-GATHER"
+    check.rule(
+        rule,
+        "every asyncio.gather(...) on a cleanup path passes return_exceptions=True (one failing cleanup "
+        "cannot abandon the others); the single fail-fast gather is gather_with_cancel's first one, whose "
+        "except handler performs the cancel-and-settle",
+    )
+    for mod in mods:
+        for c in ast.walk(mod.tree):
+            if isinstance(c, ast.Call) and last_attr(c) == "gather" and isinstance(c.func, ast.Name):
+                ok = any(k.arg == "return_exceptions" and getattr(k.value, "value", None) is True for k in c.keywords)
+                why = "return_exceptions=True"
+                if not ok:
+                    t = covered_by_try(c, {"Exception", "BaseException"})
+                    ok = qualname_of(c) == "gather_with_cancel" and t is not None and any(
+                        isinstance(x, ast.Call) and last_attr(x) == "gather" and any(k.arg == "return_exceptions" for k in x.keywords)
+                        for h in t.handlers for x in ast.walk(h))
+                    why = "fail-fast gather whose handler cancels and settles" if ok else "fail-fast gather on a cleanup path"
+                check.ob(rule, c, f"{node_text(c, 60)} in {qualname_of(c)}", ok, why)
+    check.floor(rule, 6, "gather calls")
+
+
+def abort_result_used(check: Check, repo: Repo, mods: list[Module]) -> None:
+    rule = "ABORT-RESULT-USED"
+    check.rule(
+        rule,
+        "abort()/cancel-style methods that return the asynchronous remainder of the cleanup "
+        "(AwaitableOrValue[None]) never have that result discarded: each call is awaited (after an "
+        "is_awaitable test), collected for a gather, returned, or handed to a background settler",
+    )
+    classes = ClassIndex(repo)
+    names = set()
+    for mod in mods:
+        for fn in mod.functions():
+            if fn.name in ("abort", "on_abort") and fn.returns is not None and ("Awaitable" in unparse(fn.returns)):  # type: ignore[attr-defined]
+                names.add(fn.name)  # type: ignore[attr-defined]
+    for mod in mods:
+        for c in ast.walk(mod.tree):
+            if isinstance(c, ast.Call) and isinstance(c.func, ast.Attribute) and c.func.attr in names:
+                p = parent(c)
+                ok = not isinstance(p, ast.Expr)
+                check.ob(rule, c, f"{node_text(c, 50)} in {qualname_of(c)}", ok,
+                         "result is bound / returned / passed on" if ok else "result of the abort is discarded: its asynchronous cleanup is never awaited")
+    check.floor(rule, 5, "abort call sites")
+
+
+def fin_cleanup(check: Check, repo: Repo) -> None:
+    rule = "FIN-CLEANUP"
+    check.rule(
+        rule,
+        "_subscribe: once the event stream exists every exit (return, raise, generator close at the yield) "
+        "passes `await work_queue.cancel()`, `await context.cancel_incremental_work()` and "
+        "`context.run_async_work_finished_hook()` in that order (one finally); map_async_iterable iterates "
+        "only inside `async with aclosing(iterable)`; aclosing.__aexit__ calls aclose() under suppress; "
+        "complete_async_iterator_value's exception path reaches early_return()",
+    )
+    fn = repo.func("execution.incremental.incremental_publisher", "IncrementalPublisher._subscribe")
+    tries = [t for t in fn.body if isinstance(t, ast.Try) and t.finalbody]
+    ok = len(tries) == 1
+    order = [unparse(s) for s in tries[0].finalbody] if ok else []
+    want = ["await work_queue.cancel()", "await context.cancel_incremental_work()", "context.run_async_work_finished_hook()"]
+    pos = [order.index(w) if w in order else -1 for w in want]
+    ok = ok and all(p >= 0 for p in pos) and pos == sorted(pos)
+    # nothing that can suspend or raise lies between creating the events and the try
+    if ok:
+        idx = fn.body.index(tries[0])
+        pre = fn.body[:idx]
+        ok = all(not _has_await(s) for s in pre)
+        ok = ok and all(not any(isinstance(x, ast.While) for x in ast.walk(s)) for s in pre)
+    check.ob(rule, tries[0] if tries else fn, "_subscribe finally: cancel queue, cancel incremental work, run hook", ok, str(order))
+    m = repo.func("execution.async_iterables", "map_async_iterable")
+    withs = [w for w in m.body if isinstance(w, ast.AsyncWith)]
+    ok = len(withs) == 1 and "aclosing(iterable)" in unparse(withs[0].items[0].context_expr) and all(
+        not isinstance(s, (ast.AsyncFor, ast.For, ast.While)) for s in m.body)
+    check.ob(rule, m, "map_async_iterable iterates inside `async with aclosing(iterable)`", ok, "")
+    ax = repo.func("execution.async_iterables", "aclosing.__aexit__")
+    awaited = [n for n in walk_body(ax) if isinstance(n, ast.Await) and unparse(n.value) == "aclose()"]
+    ok = len(awaited) == 1 and any(isinstance(a, ast.With) and "suppress" in unparse(a.items[0].context_expr) for a in ancestors(awaited[0]))
+    check.ob(rule, ax, "aclosing.__aexit__ awaits aclose() under suppress", ok, "")
+    ci = repo.func("execution.executor", "Executor.complete_async_iterator_value")
+    handlers = [h for t in walk_body(ci) if isinstance(t, ast.Try) for h in t.handlers if h.type is not None and unparse(h.type) == "Exception" and h.name is None]
+    ok = any(any(isinstance(x, ast.Await) and unparse(x.value) == "early_return()" for x in ast.walk(h)) and isinstance(h.body[-1], ast.Raise) for h in handlers)
+    check.ob(rule, ci, "complete_async_iterator_value closes the source on its exception path and re-raises", ok, "")
+
+
+def twin_handlers(check: Check, repo: Repo, mods: list[Module], rule: str = "TWIN-HANDLERS") -> None:
+    check.rule(
+        rule,
+        "sync/async twins agree: when a function obtains a value from a call made inside try/except and, "
+        "if it is awaitable, awaits it in a nested coroutine, the `await` is wrapped in a try whose handler "
+        "classes equal those of the synchronous try (an error surfacing asynchronously gets the same "
+        "conversion / cleanup as the same error raised synchronously)",
+    )
+    from sa.cfg import handler_types
+
+    n = 0
+    for mod in mods:
+        for fn in mod.functions():
+            if isinstance(parent(fn), (*FuncDef, ast.Lambda)):
+                continue
+            # values assigned inside a try body of fn (not in nested functions)
+            assigned: dict[str, ast.Try] = {}
+            for t in walk_body(fn):
+                if isinstance(t, ast.Try) and t.handlers:
+                    stack = list(t.body)
+                    while stack:
+                        s = stack.pop()
+                        if isinstance(s, (ast.FunctionDef, ast.AsyncFunctionDef, ast.ClassDef)):
+                            continue
+                        if isinstance(s, ast.Assign) and len(s.targets) == 1 and isinstance(s.targets[0], ast.Name) \
+                                and isinstance(s.value, (ast.Call, ast.Await)):
+                            assigned.setdefault(s.targets[0].id, t)
+                        stack.extend(x for x in ast.iter_child_nodes(s) if isinstance(x, ast.stmt))
+            if not assigned:
+                continue
+            for g in ast.walk(fn):
+                if not (isinstance(g, ast.AsyncFunctionDef) and g is not fn):
+                    continue
+                params = {a.arg for a in g.args.args}
+                for aw in walk_body(g):
+                    if isinstance(aw, ast.Await) and isinstance(aw.value, ast.Name) and aw.value.id in assigned and aw.value.id not in params:
+                        t_sync = assigned[aw.value.id]
+                        # g must be defined after / outside that try or inside it - either way the twin applies
+                        h_sync = sorted({c for h in t_sync.handlers for c in handler_types(h)})
+                        t_async = None
+                        child = aw
+                        for a in ancestors(aw):
+                            if a is g:
+                                break
+                            if isinstance(a, ast.Try) and any(child is s or _contains(s, child) for s in a.body):
+                                t_async = a
+                                break
+                            child = a
+                        h_async = sorted({c for h in t_async.handlers for c in handler_types(h)}) if t_async is not None else []
+                        ok = h_async == h_sync
+                        n += 1
+                        check.ob(rule, aw, f"{fn.name}.{g.name}: await {aw.value.id}", ok,
+                                 f"sync and async handlers both {h_sync}" if ok else
+                                 f"synchronous call is wrapped in except {h_sync} but the awaited twin is wrapped in except {h_async or 'nothing'}")
+    check.floor(rule, 4, "sync/async twins")
+
+
+def _contains(root: ast.AST, node: ast.AST) -> bool:
+    return any(x is node for x in ast.walk(root))
